@@ -5815,6 +5815,9 @@ class CodegenCtx:
         target_overriden = False
         needs_early_advance = any(x.may_return_early() for x in transition.actions)
         immediate_done = transition.target in self.dfa.accepting_states and not ProgramData.do(ProgramFlag.STRICT_DONE_TOKEN_GENERATION) and all(x.error_handling for x in transition.target.transitions)
+        if from_end and not transition.is_fallthrough and transition.target in self.dfa.accepting_states:
+            # end-of-input was consumed into the accepting state: there is no later call that could report DONE
+            immediate_done = True
         if needs_early_advance and not from_end and not transition.is_fallthrough and not immediate_done:
             if ProgramData.do(ProgramFlag.INDIRECT_START_PTR):
                 transition_body.add(f"++(*start);");
